@@ -1,0 +1,14 @@
+//go:build verif
+
+package common
+
+// Assumed contracts of repository functions outside the verified subset, used by C10/C29 (kernel).
+
+//@ assume func (ver *VersionedTransaction) PayloadHash
+//@   -- caches the marshalled payload and its hash in the receiver; nothing else is written
+//@   requires ver != nil
+//@   modifies ver.hash, ver.pmbytes
+
+//@ assume func (a Address) String
+//@   -- base58 rendering of the two public keys: allocates, writes no existing object
+//@   modifies nothing
